@@ -342,7 +342,21 @@ pub fn default_value(d: &J, s: &S, env: &Env) -> Result<V, String> {
                 V::Decimal(BigInt::from_signed_bytes_be(&raw))
             }
             Lt::Date | Lt::TimeMillis | Lt::TimeMicros | Lt::TsMillis | Lt::TsMicros | Lt::TsNanos | Lt::LtsMillis | Lt::LtsMicros | Lt::LtsNanos => default_value(d, b, env)?,
-            _ => return Err("default for this logical type is outside the model".into()),
+            Lt::Uuid => match b.deref(env) {
+                S::String => V::Uuid(crate::refbin::parse_uuid_text(d.as_str().ok_or("string expected")?).ok_or("default is not a UUID text")?),
+                _ => {
+                    let raw = bytes_of(d.as_str().ok_or("string expected")?)?;
+                    V::Uuid(<[u8; 16]>::try_from(raw.as_slice()).map_err(|_| "uuid default is not 16 bytes")?)
+                }
+            },
+            Lt::Duration => {
+                let raw = bytes_of(d.as_str().ok_or("string expected")?)?;
+                if raw.len() != 12 {
+                    return Err("duration default is not 12 bytes".into());
+                }
+                V::Duration(u32::from_le_bytes(raw[0..4].try_into().unwrap()), u32::from_le_bytes(raw[4..8].try_into().unwrap()), u32::from_le_bytes(raw[8..12].try_into().unwrap()))
+            }
+            Lt::BigDecimal => return Err("default for this logical type is outside the model".into()),
         },
         S::Ref(_) => unreachable!(),
     })
